@@ -42,6 +42,8 @@ class Ref:
             p = op.split()
             if p[1] == "reset":
                 self.reset(float(p[2]), float(p[3]), float(p[4])); prev_map = None; continue
+            if p[1] == "rx":
+                self.rx = (float(p[2]), float(p[3])); continue          # the receiver moved: later reports are judged from the new position
             if p[1] == "age":
                 self.now += int(p[2]); continue
             if line.startswith("PANIC"):
